@@ -32,6 +32,7 @@
 
 //! Builder for decision table evaluators.
 
+use crate::errors::*;
 use dmntk_common::Result;
 use dmntk_feel::context::FeelContext;
 use dmntk_feel::values::{Value, Values};
@@ -268,6 +269,23 @@ impl EvaluatedDecisionTable {
 
 ///
 fn parse_decision_table(scope: &Scope, decision_table: &DecisionTable) -> Result<ParsedDecisionTable> {
+  // there must be an output clause, and every rule must have an entry for every input and output clause
+  let input_clauses_count = decision_table.input_clauses.len();
+  let output_clauses_count = decision_table.output_clauses.len();
+  if output_clauses_count == 0 {
+    return Err(err_decision_table_without_output_clause());
+  }
+  for (i, rule) in decision_table.rules.iter().enumerate() {
+    if rule.input_entries.len() != input_clauses_count || rule.output_entries.len() != output_clauses_count {
+      return Err(err_invalid_number_of_rule_entries(
+        i + 1,
+        rule.input_entries.len(),
+        rule.output_entries.len(),
+        input_clauses_count,
+        output_clauses_count,
+      ));
+    }
+  }
   // parse input expressions and input values
   let mut input_expressions_and_values = vec![];
   for input_clause in &decision_table.input_clauses {
